@@ -26,7 +26,7 @@ TIERS = {
 REQUIRED_PROBES = {
     "quick": ["probe.logging_on", "probe.history_before_call", "probe.other_hash_seed", "probe.digest_compared"],
     "thorough": ["probe.logging_on", "probe.history_before_call", "probe.other_hash_seed", "probe.digest_compared", "probe.clock_jump", "probe.plots_on",
-                 "probe.print_only_logging", "probe.call.fit", "probe.call.scipy_minimize", "probe.call.mean_posterior", "probe.call.mode_posterior", "probe.call.simulate"],
+                 "probe.print_only_logging", "probe.call.fit", "probe.call.scipy_minimize", "probe.call.mean_posterior", "probe.call.mode_posterior", "probe.call.simulate", "probe.annealing_on"],
 }
 DESCRIBE = {
     "rule": "one case = one measured seeded call (fit / personalize x3 / simulate) on a generated cohort, executed in a fresh interpreter (a) alone, without logging, PYTHONHASHSEED=0 and "
@@ -52,6 +52,9 @@ def make_plan(seed: int, tier: str) -> dict:
     nf = 1 if info["uni"] else 3
     plan = {"seed": seed, "tier": tier, "engine": "procsim_c11", "call": call, "kind": kind, "nf": nf, "gseed": st.u64() & 0xFFFFFFFF,
             "aseed": st.randint(0, 99), "n_iter": st.randint(3, 8), "hashseed": st.choice([0, 1, 2, 7, 42, 123, 999, 31337]), "history": [], "logs": None, "clock_jumps": []}
+    if call in ("fit", "mean_posterior", "mode_posterior") and st.bernoulli(0.35):
+        plan["annealing"] = {"do_annealing": True, "initial_temperature": st.choice([2, 5, 10]), "n_plateau": st.randint(2, 3), "n_iter_frac": st.choice([0.5, 0.9])}
+        plan["n_iter"] = max(plan["n_iter"], 6)
     for _ in range(st.randint(0, 3)):
         k = st.choice(["burn_rng", "burn_rng", "seed_other", "earlier_fit", "earlier_personalize", "open_figures", "default_dtype_roundtrip"])
         op = {"op": k}
@@ -136,6 +139,8 @@ def run_plan(plan: dict) -> dict:
         C["probe.other_hash_seed"] += 1
     if plan["clock_jumps"]:
         C["probe.clock_jump"] += 1
+    if plan.get("annealing"):
+        C["probe.annealing_on"] += 1
     if ref["errors"]:
         # the measured call itself fails without any history or logging: not attributable to C11
         out["discarded"] = f"reference_raised:{ref['errors'][0][1]}"
